@@ -163,9 +163,9 @@ def _run(chk, wd, proved):
     for t in TOKENS:
         streams.append((t,))
     pairs = [(a, b) for a in TOKENS for b in TOKENS]
-    if quick:   # all pairs over the first 14 tokens, every 4th of the rest
+    if quick:   # all pairs over the first 12 tokens, every 7th of the rest
         pairs = [pr for i, pr in enumerate(pairs)
-                 if (pr[0] in TOKENS[:14] and pr[1] in TOKENS[:14]) or i % 4 == 0]
+                 if (pr[0] in TOKENS[:12] and pr[1] in TOKENS[:12]) or i % 7 == 0]
     streams += pairs
     core3 = list(itertools.product(CORE, repeat=3))
     if quick:
@@ -181,6 +181,9 @@ def _run(chk, wd, proved):
     hostile = [(b'RESULT ' + b'9' * 30 + b'\n', b'OK'),                (b'RESULT ' + b'1' * 4301 + b'\n', b'READY\n'), (b'RESULT ' + b'0' * 40 + b'2\n', b'OK', b'READY\n'),
                (b'\x00' * 50,), (b'READY\n' * 5,), (b'RESULT 2\nOK' * 3,),
                (b'RESULT 00\n',), (b'RESULT 000000\n',),
+               # result bodies the default handler must reject: trailing LF, other case, garbage, NUL/high bytes
+               (b'RESULT 3\n', b'OK\n', b'READY\n'), (b'RESULT 2\n', b'ok'), (b'RESULT 2\n', b'Ok', b'READY\n'),
+               (b'RESULT 4\n', b'\x00\xff\x80\n'), (b'RESULT 3\n', b' OK'), (b'RESULT 4\n', b'OKOK'), (b'RESULT 1\n', b'O', b'K'),
                # escape sequences inside payloads, across tokens and across chunk boundaries
                (b'RESULT 7\n', b'O\x1b[31mK', b'READY\n'), (b'RE\x1b[1mADY\n',), (b'READY\n', b'\x1b[0m'),
                (b'RESULT 2\n', b'\x1b[0mOK'), (b'RESULT 5\n', b'\x1b[31m', b'READY\n'), (b'RES\x1b[mULT 2\nOK',),
@@ -195,7 +198,7 @@ def _run(chk, wd, proved):
             if len(toks) >= 3 and not is_hostile and quick and (si + STARTS.index(start)) % 2:
                 continue
             variants = [(hk, False) for hk in ((0, 1) if b'!X' in toks else (0,))]
-            if b'\x1b' in stream or is_hostile or (si + STARTS.index(start)) % 7 == 0:
+            if b'\x1b' in stream or is_hostile or (si + STARTS.index(start)) % 9 == 0:
                 variants.append((0, True))       # the same bytes with options.strip_ansi = True
             for hk, strip in variants:
                 cur['strip'] = strip
@@ -203,7 +206,7 @@ def _run(chk, wd, proved):
                 # reference: byte-wise delivery (state after every prefix)
                 if len(stream) <= 60:
                     bytewise = [['feed', 0, stream[i:i + 1]] for i in range(len(stream))]
-                    if quick and (si + STARTS.index(start)) % 3:
+                    if quick and (si + STARTS.index(start)) % 4:
                         tr = impl_only(1, hk, setup, bytewise)
                     else:
                         tr = add_case(1, hk, setup, bytewise, 'A-bytewise')
@@ -251,7 +254,7 @@ def _run(chk, wd, proved):
     # ---------------- family E: dispatch attempt after every fragment
     e_streams = [s for s in streams if 2 <= len(s) <= 4]
     rng.shuffle(e_streams)
-    e_streams = e_streams[:(110 if quick else 4000)]
+    e_streams = e_streams[:(80 if quick else 4000)]
     for toks in e_streams:
         stream = b''.join(toks)
         for start in STARTS:
@@ -283,6 +286,7 @@ def _run(chk, wd, proved):
         base_ops.append(['writable', i, ['room', env.BIG]])
         base_ops.append(['writable', i, ['epipe']])
         base_ops.append(['stop', i])
+        base_ops.append(['stopfail', i])
         base_ops.append(['finish', i, b'', ['room', env.BIG], False])
         base_ops.append(['spawn', i, 200 + i])
         base_ops.append(['running', i])
@@ -311,14 +315,14 @@ def _run(chk, wd, proved):
     for sname, setup in sorted(s_setups.items()):
         d = depth if (quick or sname == 'both-ready') else 2
         for seq in itertools.product(base_ops, repeat=d):
-            if quick and sname == 'cold' and rng.random() < 0.5:
+            if quick and rng.random() < (0.7 if sname == 'cold' else 0.45):
                 continue
             ops = [inst(o) for o in seq]
             cur['strip'] = bool(len(cases) % 2)
             add_case(2, 0, setup, ops, 'S-exh')
             evaluations += 1
             chk.dist('S-exh:' + sname)
-    nrand = 800 if quick else 8000
+    nrand = 600 if quick else 8000
     for _ in range(nrand):
         n = rng.randrange(4, 14)
         ops = []
@@ -343,8 +347,10 @@ def _run(chk, wd, proved):
                     ops.append(['feed', i, b'READY\n'])
             elif r < 0.84:
                 ops.append(['running', i])
-            elif r < 0.90:
+            elif r < 0.885:
                 ops.append(['stop', i])
+            elif r < 0.90:
+                ops.append(['stopfail', i])
             else:
                 ops.append(['finish', i, rng.choice([b'', b'', b'RESULT 2\nOK', b'junk', b'RESULT 2\n']),
                             rng.choice(W), rng.random() < 0.3])
@@ -469,7 +475,7 @@ def _run(chk, wd, proved):
                    '<= %d bytes, else every single cut + byte-wise + random cuts (%d fragmentation runs compared '
                    'implementation-against-itself, byte-wise/whole/one random per stream compared with the model in Coq); '
                    'E: dispatch attempt after every fragment; S: every sequence of %d operations over %d operation kinds '
-                   'from 4 start configurations of two listeners + %d random histories of 4-13 operations; '
+                   'from 4 start configurations of two listeners (incl. stop requests whose signal fails: process state UNKNOWN) + %d random histories of 4-13 operations; '
                    'distinct = distinct (observed state of all listeners, effects) pairs after an operation'
                    % (len(streams), len(TOKENS), len(CORE), exh_upto, frag_runs, depth, len(base_ops), nrand))
     cov['samples'] = [meta[0], meta[len(meta) // 2], meta[-1]]
